@@ -117,7 +117,7 @@ def main():
         if names and name not in names:
             continue
         t0 = time.time()
-        r = subprocess.run([os.path.join(os.path.dirname(os.path.abspath(__file__)), 'mut.py'), '--sed', '%s::%s::%s' % (f, old, new), '--',
+        r = subprocess.run([os.path.join(os.path.dirname(os.path.abspath(__file__)), 'mut.py'), '--sub', f, old, new, '--',
                             './check', prop, '--tier', tier], stdout=subprocess.PIPE, stderr=subprocess.STDOUT, text=True)
         viol = [l for l in r.stdout.splitlines() if l.startswith('VIOLATION')]
         rec = dict(prop=prop, mutant=name, tier=tier, rc=r.returncode, caught=r.returncode == 1 and bool(viol), labels=[v.split('label=')[-1] for v in viol][:4], wall=round(time.time() - t0, 1))
